@@ -6,6 +6,7 @@
    enclose exact images ([B_sound]). *)
 From Coq Require Import Reals List ZArith Bool.
 From LF Require Import Base.Opcode Interval.IntervalModel Interval.XR Interval.IntervalSound.
+From LF Require Gen.IntervalDispatch_gen Eval.KernelsAgree.
 
 (* what is assumed of the point kernels (eval_array.cpp): the arithmetic ones are
    the IEEE operations, the transcendental ones only by their NaN behaviour *)
@@ -87,8 +88,19 @@ Theorem C02_flagged_is_ambiguous :
     nanf a = true -> state_of I a = AMBIGUOUS.
 Proof. intros num I a H; unfold state_of; rewrite H; reflexivity. Qed.
 
+(* THE DISPATCH IS THE SOURCE'S.  [ieval_gen] is regenerated on every run from IntervalEvaluator::operator()
+   (eval_interval.cpp) by translate/gen_kernels.py: every opcode is sent to the Interval:: operation the model's
+   [ieval_un] / [ieval_bin] name, with its operands in the same order (for every number type and every choice of
+   Boost's primitives) *)
+Theorem C02_dispatch_from_source :
+  forall (num : Type) (I : @iops num) (B : @bprims num) op a b,
+    IntervalDispatch_gen.ieval_gen I B op a b =
+    match args op with Some 1%nat => ieval_un I B op a | _ => ieval_bin I B op a b end.
+Proof. exact @KernelsAgree.ieval_gen_eq. Qed.
+
 Print Assumptions C02_eval_sound.
 Print Assumptions C02_classified_ok.
 Print Assumptions C02_mod_flag_sound.
 Print Assumptions C02_eval_sound_instance.
 Print Assumptions C02_flagged_is_ambiguous.
+Print Assumptions C02_dispatch_from_source.
